@@ -1556,6 +1556,7 @@ def text_edit(rng, text):
     n = rng.randrange(10 ** 4)
     kind = rng.choice(["dup-after", "dup-after", "dup-before", "dup-play-key", "dup-play-key", "merge-inline", "merge-shadowed",
                        "merge-own-subtree", "merge-own-subtree", "merge-own-signed", "merge-earlier", "alias-value", "second-doc", "second-doc-first",
+                       "chain-inline", "chain-inline", "chain-inline", "chain-anchors", "chain-anchors", "chain-list", "chain-task", "chain-vars",
                        "tag-scalar", "tag-scalar", "tag-collection", "style", "style", "style-int", "comment", "comment", "whitespace", "doc-markers"])
     if kind in ("dup-after", "dup-before", "merge-inline", "merge-shadowed", "tag-scalar", "style", "comment", "merge-earlier", "alias-value") and not simple:
         return None
@@ -1577,6 +1578,56 @@ def text_edit(rng, text):
         else:
             extra = [pind + "%s: evil-%d" % (k, n)]
         return kind + ":" + k, join(lines + extra)
+    if kind.startswith("chain-"):
+        # a merged mapping that itself carries a merge key, 2-4 levels deep; DEEPVAL marks a value of the deepest level
+        deep = rng.choice(["evil_%d: DEEPVAL" % n, "evil_%d: [DEEPVAL, 2]" % n, "evil_%d: {k: DEEPVAL}" % n, "pre_tasks: [{command: DEEPVAL}]",
+                           "evil_%d: DEEPVAL, also_%d: [1]" % (n, n)])
+        depth = rng.choice([2, 2, 3, 3, 4])
+
+        def nest(levels, shadow):
+            inner = "{%s}" % deep
+            for lv in range(levels - 1):
+                extra = ""
+                if shadow and lv == 0:
+                    extra = "evil_%d: shadowed-at-level-%d, " % (n, lv)      # an intermediate level sets the deepest key itself
+                elif rng.random() < 0.4:
+                    extra = "mid_%d_%d: %s, " % (n, lv, rng.choice(["1", "[a]", "{b: c}"]))
+                inner = "{%s<<: %s}" % (extra, inner)
+            return inner
+        shadow = rng.random() < 0.25
+        if kind in ("chain-inline", "chain-task", "chain-vars"):
+            if kind == "chain-inline":
+                where = [(i, m) for i, m in simple if ind_of(m) == pind] or simple
+            elif kind == "chain-task":
+                where = [(i, m) for i, m in simple if len(ind_of(m)) > len(pind) + 2]
+            else:
+                where = [(i, m) for i, m in simple if m.group("key") in ("insights_signature_exclude", "dyn")]
+            if not where:
+                return None
+            i, m = rng.choice(where)
+            return "%s:%d%s" % (kind, depth, ":shadow" if shadow else ""), join(lines[:i + 1] + ["%s<<: %s" % (ind_of(m), nest(depth, shadow))] + lines[i + 1:])
+        c = [(i, m) for i, m in simple if m.group("key") == "hosts" and m.group("ind") in (pind, lines[0][:len(pind) - 2] + "- ")]
+        if not c:
+            return None
+        i, m = c[0]
+        ls = list(lines)
+        if kind == "chain-anchors":
+            # the chain runs through anchors that sit in the excluded hosts element: c <- b <- a, the play merges a
+            names = ["c%d" % n, "b%d" % n, "a%d" % n][3 - min(depth, 3):]
+            parts = ["%s: &%s {%s}" % (names[0], names[0], deep)]
+            for prev, cur in zip(names, names[1:]):
+                parts.append("%s: &%s {<<: *%s%s}" % (cur, cur, prev, ", mid_%s: 1" % cur if rng.random() < 0.5 else ""))
+            ls[i] = "%shosts: {%s}" % (m.group("ind"), ", ".join(parts))
+            later = [(j, mm) for j, mm in simple if j > i and len(ind_of(mm)) > len(pind) + 2]
+            if later and rng.random() < 0.4:
+                j, mm = rng.choice(later)
+                return "%s:%d:task" % (kind, len(names)), join(ls[:j + 1] + ["%s<<: *%s" % (ind_of(mm), names[-1])] + ls[j + 1:])
+            return "%s:%d" % (kind, len(names)), join(ls + ["%s<<: *%s" % (pind, names[-1])])
+        # chain-list: a list of merges mixing an alias with an inline mapping that merges another alias
+        ls[i] = "%shosts: {a: &a%d {first_%d: 1, evil_%d: from-a}, b: &b%d {%s}}" % (m.group("ind"), n, n, n, n, deep)
+        form = rng.choice(["[*a%d, {<<: *b%d}]", "[{<<: *b%d}, *a%d]", "[{<<: {<<: *b%d}}, *a%d]"])
+        form = form % ((n, n))
+        return "%s" % kind, join(ls + ["%s<<: %s" % (pind, form)])
     if kind == "merge-inline":
         i, m = rng.choice(simple)
         return kind, join(lines[:i + 1] + ["%s<<: {evil_%d: true}" % (ind_of(m), n)] + lines[i + 1:])
@@ -1747,7 +1798,28 @@ def run_text_and_encoding(chk, quick):
             if e is None:
                 continue
             kind, text1 = e
+            text2 = None
+            if "DEEPVAL" in text1:
+                text2 = text1.replace("DEEPVAL", rng.choice(["other", "7", "[x]"]))
+                text1 = text1.replace("DEEPVAL", "deepest")
             o1, d1 = check_text_pair(chk, text0, text1, kind, o0, d0)
+            if text2 is not None and o1[0] == "digests":
+                # a value inside the deepest level of the chain changes: the digest must follow
+                check_text_pair(chk, text1, text2, kind + ":deepest-value", o1, d1)
+                chk.count("text:chain-deepest-value-changed")
+            if d1[0] == "ok" and d1[2].get("merge") and set(d1[2]) <= {"merge", "play-level-merge"} and o1[0] == "digests" and len(d1[1]) == 1:
+                # the digest must be that of the explicitly written play (what a merge-expanding consumer sees)
+                try:
+                    explicit = dump_yaml([to_ruamel(d1[1][0])])
+                    ok_explicit = canon(denote(explicit)[1][0]) == canon(d1[1][0])
+                except Exception:
+                    ok_explicit = False
+                if ok_explicit:
+                    chk.count("text:merge-vs-explicit-play")
+                    oe = text_outcome(explicit)
+                    if oe != o1:
+                        chk.failure("text edit (%s): the digest shown to GPG is not the digest of the explicitly written play (merges expanded)" % kind,
+                                    {"op": "text-equal", "expect": "equal", "text0": explicit, "text1": text1})
             k0 = kind.split(":")[0]
             same = d1[0] == "ok" and denoted_cores(d1) == denoted_cores(d0)
             chk.count("text:%s/%s/%s" % (k0, "same-play" if same else "other-play" if d1[0] == "ok" else "unloadable",
